@@ -154,9 +154,9 @@ type env struct {
 	f       *findings
 	thor    bool
 	count   struct {
-		sound, soundRej, fee, enc, encVerdict, block, scripts vk.Counter
-		e2e, stale, countFam, partial                         vk.Counter
-		states                                                *vk.Set
+		sound, soundRej, fee, enc, encVerdict, block, scripts  vk.Counter
+		e2e, stale, countFam, partial, rpc, rpcFee, ntFee, p2p vk.Counter
+		states                                                 *vk.Set
 	}
 	// extensions
 	castMTB  *conflictCast
@@ -257,6 +257,9 @@ type runner struct {
 	rec     *chainx.RecStore
 	batches int
 	facts   *facts
+	// extension: the RPC server on this replica (ext_rpc_test.go)
+	rpc       *rpcEnd
+	rpcBroken bool
 }
 
 func (e *env) newRunner(st *state) (*runner, error) {
@@ -277,7 +280,10 @@ func (e *env) newRunner(st *state) (*runner, error) {
 	return rn, nil
 }
 
-func (rn *runner) close() { rn.n.Close() }
+func (rn *runner) close() {
+	rn.rpc.close()
+	rn.n.Close()
+}
 
 func (rn *runner) mkFacts() *facts {
 	bc := rn.n.BC
@@ -497,42 +503,49 @@ func TestCheck(t *testing.T) {
 	pprof.StopCPUProfile()
 	distinct := func(sub string) int { return len(e.outs[sub]) }
 	ext := map[string]any{
-		"after-block-histories":        map[string]any{"cases": int(e.count.stale.Get()), "distinct_outcomes": distinct("stale")},
-		"count-varint-packing":         map[string]any{"cases": int(e.count.countFam.Get()), "distinct_outcomes": distinct("count")},
-		"sound-end-to-end":             map[string]any{"cases": int(e.count.e2e.Get()), "distinct_outcomes": distinct("e2e")},
-		"sound-via-PoolTxWithData":     map[string]any{"cases": int(e.count.partial.Get()), "distinct_outcomes": distinct("pooltxwithdata")},
-		"sound-new-states":             map[string]any{"states": len(extStates()) + len(e.mtbNames) + len(e.comNames), "distinct_outcomes_of_the_valid_variant": distinct("sound-new-states")},
-		"max-verification-gas-witness": e.outs["maxgas-witness"],
+		"after-block-histories":            map[string]any{"cases": int(e.count.stale.Get()), "distinct_outcomes": distinct("stale")},
+		"count-varint-packing":             map[string]any{"cases": int(e.count.countFam.Get()), "distinct_outcomes": distinct("count")},
+		"sound-end-to-end":                 map[string]any{"cases": int(e.count.e2e.Get()), "distinct_outcomes": distinct("e2e")},
+		"sound-via-PoolTxWithData":         map[string]any{"cases": int(e.count.partial.Get()), "distinct_outcomes": distinct("pooltxwithdata")},
+		"sound-via-p2p-message":            map[string]any{"cases": int(e.count.p2p.Get()), "distinct_outcomes": distinct("p2p-message")},
+		"sound-via-rpc-sendrawtransaction": map[string]any{"cases": int(e.count.rpc.Get()), "distinct_outcomes": distinct("rpc")},
+		"fee-calculators":                  map[string]any{"rpc_calculatenetworkfee": int(e.count.rpcFee.Get()), "neotest_AddNetworkFee": int(e.count.ntFee.Get()), "distinct_outcomes": distinct("fee-calculators")},
+		"sound-new-states":                 map[string]any{"states": len(extStates()) + len(e.mtbNames) + len(e.comNames), "distinct_outcomes_of_the_valid_variant": distinct("sound-new-states")},
+		"max-verification-gas-witness":     e.outs["maxgas-witness"],
 	}
 	cov := map[string]any{
-		"extension_families":                     ext,
-		"states":                                 e.count.states.Len(),
-		"transitions":                            int(e.count.sound.Get() + e.count.fee.Get() + e.count.encVerdict.Get() + e.count.block.Get() + e.count.e2e.Get() + e.count.stale.Get() + e.count.countFam.Get()),
-		"traces_validated_against_impl":          int(e.count.sound.Get() + e.count.fee.Get() + e.count.encVerdict.Get() + e.count.block.Get() + e.count.e2e.Get() + e.count.stale.Get() + e.count.countFam.Get()),
-		"sound_submissions":                      int(e.count.sound.Get()),
-		"sound_rejections_checked_for_no_effect": int(e.count.soundRej.Get()),
-		"fee_threshold_transactions":             int(e.count.fee.Get()),
-		"encoding_variants_decoded":              int(e.count.enc.Get()),
-		"encoding_variants_submitted":            int(e.count.encVerdict.Get()),
-		"proposable_pool_contents":               int(e.count.block.Get()),
-		"sound":                                  soundCov,
-		"sound_script_wellformedness":            scriptCov,
-		"script_submissions":                     int(e.count.scripts.Get()),
-		"fee":                                    feeCov,
-		"proposable":                             blockCov,
-		"proposable_attribute_boundaries":        attrBlockCov,
-		"proposable_after_block_arrival":         staleCov,
-		"proposable_after_block_cases":           int(e.count.stale.Get()),
-		"proposable_count_varint":                countCov,
-		"proposable_count_varint_cases":          int(e.count.countFam.Get()),
-		"sound_end_to_end_blocks":                int(e.count.e2e.Get()),
-		"sound_submissions_via_PoolTxWithData":   int(e.count.partial.Get()),
-		"outcomes_by_subcheck":                   e.outs,
-		"findings_not_listed":                    e.f.dropped,
-		"rule":                                   "state = (sub-check, chain state or family, transaction content / pool content); every element of the stated finite sets is executed on a real replica",
+		"extension_families":                       ext,
+		"states":                                   e.count.states.Len(),
+		"transitions":                              int(e.count.sound.Get() + e.count.fee.Get() + e.count.encVerdict.Get() + e.count.block.Get() + e.count.e2e.Get() + e.count.stale.Get() + e.count.countFam.Get()),
+		"traces_validated_against_impl":            int(e.count.sound.Get() + e.count.fee.Get() + e.count.encVerdict.Get() + e.count.block.Get() + e.count.e2e.Get() + e.count.stale.Get() + e.count.countFam.Get()),
+		"sound_submissions":                        int(e.count.sound.Get()),
+		"sound_rejections_checked_for_no_effect":   int(e.count.soundRej.Get()),
+		"fee_threshold_transactions":               int(e.count.fee.Get()),
+		"encoding_variants_decoded":                int(e.count.enc.Get()),
+		"encoding_variants_submitted":              int(e.count.encVerdict.Get()),
+		"proposable_pool_contents":                 int(e.count.block.Get()),
+		"sound":                                    soundCov,
+		"sound_script_wellformedness":              scriptCov,
+		"script_submissions":                       int(e.count.scripts.Get()),
+		"fee":                                      feeCov,
+		"proposable":                               blockCov,
+		"proposable_attribute_boundaries":          attrBlockCov,
+		"proposable_after_block_arrival":           staleCov,
+		"proposable_after_block_cases":             int(e.count.stale.Get()),
+		"proposable_count_varint":                  countCov,
+		"proposable_count_varint_cases":            int(e.count.countFam.Get()),
+		"sound_end_to_end_blocks":                  int(e.count.e2e.Get()),
+		"sound_submissions_via_PoolTxWithData":     int(e.count.partial.Get()),
+		"sound_submissions_via_sendrawtransaction": int(e.count.rpc.Get()),
+		"fee_rpc_calculatenetworkfee_compared":     int(e.count.rpcFee.Get()),
+		"fee_neotest_AddNetworkFee_compared":       int(e.count.ntFee.Get()),
+		"outcomes_by_subcheck":                     e.outs,
+		"findings_not_listed":                      e.f.dropped,
+		"rule":                                     "state = (sub-check, chain state or family, transaction content / pool content); every element of the stated finite sets is executed on a real replica",
 	}
 	r.Finish(cov, []string{
 		"the validity predicate takes the witness cost of standard contracts from the fee calculator (its exactness is what the fee sub-check decides) and of other witnesses from a verification run, as the RPC server does",
+		"the RPC server runs on the replica without sockets (internal client): sendrawtransaction is a further admission path, calculatenetworkfee and neotest.AddNetworkFee are compared with the threshold the fee sub-check establishes by accept/reject",
 		"admission paths: wire bytes -> NewTransactionFromBytes -> PoolTx (P2P/RPC), wire bytes -> Transaction.DecodeBinary -> PoolTx (block body codec), structure -> VerifyTx; faults the codec itself rejects count as rejections of the byte paths",
 		"script well-formedness = independent reference (script_test.go: own opcode/operand table, all offset-carrying instructions incl. PUSHA, TRY both offsets, item type operands); a target equal to len(script) is well-formed as scparser.Context.CalcJumpOffset documents; only the transaction script is judged - well-formedness of witness scripts is not demanded by the statement (witnesses must 'verify') and is left out",
 		"required attribute fee = independent reference from the Policy getter getAttributeFee(type) (read by a test invocation): Conflicts x signers, NotaryAssisted x (NKeys+1), others x 1; Blockchain.CalculateAttributesFee is never consulted; fee-per-byte and the execution fee factor are read from the plain getters",
